@@ -58,3 +58,9 @@ func (v *VerifFile) CurBase() uintptr {
 	}
 	return uintptr(unsafe.Pointer(&m.mapping.Data[0]))
 }
+
+// registration list observation
+func (v *VerifFile) HeadPtr() uintptr    { return uintptr(unsafe.Pointer(v.f.counters.Peek())) }
+func (v *VerifFile) EndPtr() uintptr     { return uintptr(unsafe.Pointer(&v.f.end)) }
+func VerifNextPtr(c *Counter) uintptr    { return uintptr(unsafe.Pointer(c.next.Peek())) }
+func VerifCounterPtr(c *Counter) uintptr { return uintptr(unsafe.Pointer(c)) }
